@@ -1173,6 +1173,19 @@ impl State {
                     Err(_) => "err".into(),
                 }
             }
+            ["encha"] => {
+                // every top-level AVP encoded on its own through the public `Avp::encode_to` (an application may write
+                // AVPs into a buffer of its own): success means the complete AVP, header length field included
+                let mut out = vec![];
+                for a in self.msg.get_avps() {
+                    let mut v = Vec::new();
+                    out.push(match a.encode_to(&mut v) {
+                        Ok(()) => format!("ok:{}:{}", v.len(), fnv(&v)),
+                        Err(_) => "err".to_string(),
+                    });
+                }
+                if out.is_empty() { "-".into() } else { out.join(";") }
+            }
             ["encw", k, short, intr, mode] => {
                 let (k, short, intr) = match (k.parse::<usize>().ok(), short.parse::<usize>().ok(), intr.parse::<usize>().ok()) {
                     (Some(a), Some(b), Some(c)) => (a, b, c),
